@@ -15,13 +15,13 @@ import (
 )
 
 func Spec_RankAscending(matrix *AlternativesMatrix, distillationFun *utils.LinearFunctionParameters) *[]int {
-	return rank(matrix, distillationFun, greater)
+	return Spec_rank(matrix, distillationFun, Spec_greater)
 }
 
 func Spec_RankDescending(matrix *AlternativesMatrix, distillationFun *utils.LinearFunctionParameters) *[]int {
-	ranking := rank(matrix, distillationFun, lower)
-	maxPosition := Max(ranking)
-	minusValuesFrom(ranking, maxPosition+1)
+	ranking := Spec_rank(matrix, distillationFun, Spec_lower)
+	maxPosition := Spec_Max(ranking)
+	Spec_minusValuesFrom(ranking, maxPosition+1)
 	return ranking
 }
 
@@ -46,14 +46,14 @@ func Spec_minusValuesFrom(values *[]int, value int) {
 
 func Spec_rank(matrix *AlternativesMatrix, distillationFun *utils.LinearFunctionParameters, evaluateFunction CompareFunction) *[]int {
 	position := 1
-	withoutD := removeDiagonal(matrix)
-	maxCred := withoutD.Max()
+	withoutD := Spec_removeDiagonal(matrix)
+	maxCred := withoutD.Spec_Max()
 	positions := make([]int, len(*matrix.Alternatives))
 	indices := make([]int, len(positions))
 	for i := range indices {
 		indices[i] = i
 	}
-	return distillate(maxCred, position, withoutD, distillationFun, evaluateFunction, false)
+	return Spec_distillate(maxCred, position, withoutD, distillationFun, evaluateFunction, false)
 }
 
 func Spec_samePositions(size, value int) *[]int {
@@ -72,21 +72,21 @@ func Spec_distillate(
 	isInner bool,
 ) *[]int {
 	if maxCred == 0 {
-		return samePositions(matrix.Size, position)
+		return Spec_samePositions(matrix.Size, position)
 	}
-	minCred, valuesToConsider := getDistillateMatrix(distillationFun, maxCred, matrix)
-	quality := computeQuality(valuesToConsider)
-	_, bestIndices := findBestMatch(quality, evaluateFunction)
-	positions := samePositions(matrix.Size, 0)
-	updatePositions(position, minCred, matrix, bestIndices, positions, distillationFun, evaluateFunction)
-	indicesLeftToUpdate := updatedPositions(bestIndices, positions)
+	minCred, valuesToConsider := Spec_getDistillateMatrix(distillationFun, maxCred, matrix)
+	quality := Spec_computeQuality(valuesToConsider)
+	_, bestIndices := Spec_findBestMatch(quality, evaluateFunction)
+	positions := Spec_samePositions(matrix.Size, 0)
+	Spec_updatePositions(position, minCred, matrix, bestIndices, positions, distillationFun, evaluateFunction)
+	indicesLeftToUpdate := Spec_updatedPositions(bestIndices, positions)
 	if len(*indicesLeftToUpdate) == matrix.Size || isInner {
 		return positions
 	}
 	position++
-	nextIterationMatrix := matrix.Without(indicesLeftToUpdate)
-	furtherPositions := distillate(nextIterationMatrix.Max(), position, nextIterationMatrix, distillationFun, evaluateFunction, false)
-	writePositionsSequentially(furtherPositions, positions)
+	nextIterationMatrix := matrix.Spec_Without(indicesLeftToUpdate)
+	furtherPositions := Spec_distillate(nextIterationMatrix.Spec_Max(), position, nextIterationMatrix, distillationFun, evaluateFunction, false)
+	Spec_writePositionsSequentially(furtherPositions, positions)
 	return positions
 }
 
@@ -123,27 +123,27 @@ func Spec_updatePositions(
 ) {
 	bestIndicesNum := len(*bestIndices)
 	if bestIndicesNum > 1 && minCred > 0 {
-		nextToFilter := valuesToConsider.Slice(bestIndices)
-		subPositions := distillate(minCred, position, nextToFilter, distillationFun, evaluateFunction, true)
-		updateValues(bestIndices, positions, subPositions)
+		nextToFilter := valuesToConsider.Spec_Slice(bestIndices)
+		subPositions := Spec_distillate(minCred, position, nextToFilter, distillationFun, evaluateFunction, true)
+		Spec_updateValues(bestIndices, positions, subPositions)
 	} else if bestIndicesNum > 0 {
-		updateValues(bestIndices, positions, samePositions(bestIndicesNum, position))
+		Spec_updateValues(bestIndices, positions, Spec_samePositions(bestIndicesNum, position))
 	}
 }
 
 func Spec_getDistillateMatrix(distillationFun *utils.LinearFunctionParameters, maxCred float64, matrix *Matrix) (float64, *Matrix) {
-	v, _ := distillationFun.Evaluate(maxCred)
+	v, _ := distillationFun.Spec_Evaluate(maxCred)
 	minCredThreshold := maxCred - v
-	minCred := matrix.FindBest(func(old, new float64) bool {
+	minCred := matrix.Spec_FindBest(func(old, new float64) bool {
 		// ok because the lowest value is 0, on diagonal for sure.
 		return new < minCredThreshold && new > old
 	})
-	valuesToConsider := matrix.Filter(func(row, col int, v float64) bool {
+	valuesToConsider := matrix.Spec_Filter(func(row, col int, v float64) bool {
 		if v <= minCred {
 			return false
 		}
-		funcValueForThisField, _ := distillationFun.Evaluate(v)
-		value := matrix.At(col, row) + funcValueForThisField
+		funcValueForThisField, _ := distillationFun.Spec_Evaluate(v)
+		value := matrix.Spec_At(col, row) + funcValueForThisField
 		return v > value
 	})
 	return minCred, valuesToConsider
@@ -156,15 +156,15 @@ func Spec_updateValues(indicesToUpdate, original, new *[]int) {
 }
 
 func Spec_removeDiagonal(matrix *AlternativesMatrix) *Matrix {
-	return matrix.Values.Filter(func(row, col int, v float64) bool {
+	return matrix.Values.Spec_Filter(func(row, col int, v float64) bool {
 		return row != col
 	})
 }
 
 func Spec_computeQuality(matrix *Matrix) *[]int {
-	strength := matrix.MatchesInRow(utils.IsPositive)
-	weakness := matrix.MatchesInColumn(utils.IsPositive)
-	return calcQuality(&strength, &weakness)
+	strength := matrix.Spec_MatchesInRow(utils.Spec_IsPositive)
+	weakness := matrix.Spec_MatchesInColumn(utils.Spec_IsPositive)
+	return Spec_calcQuality(&strength, &weakness)
 }
 
 func Spec_calcQuality(strength, weakness *[]int) *[]int {
